@@ -9,8 +9,10 @@ from pathlib import Path
 VERIF = Path(__file__).resolve().parent.parent
 
 
-def main(jobs):
+def main(jobs, only=None):
     names = sorted(d.name for d in (VERIF / "seeded").iterdir() if d.is_dir())
+    if only:
+        names = [n for n in names if any(n.endswith(suf) for suf in only)]
     chunks = [names[i::jobs] for i in range(jobs)]
     procs = []
     for i, ch in enumerate(chunks):
@@ -27,7 +29,12 @@ def main(jobs):
         f = Path(f"/tmp/seedall_{i}.json")
         if f.exists():
             merged.update(json.loads(f.read_text()))
-    (VERIF / "seeded" / "RESULTS.json").write_text(json.dumps(merged, indent=1, sort_keys=True))
+    path = VERIF / "seeded" / "RESULTS.json"
+    if only and path.exists():
+        old = json.loads(path.read_text())
+        old.update(merged)
+        merged = old
+    path.write_text(json.dumps(merged, indent=1, sort_keys=True))
     missed = sorted(k for k, v in merged.items() if v.get("exit") != 1)
     nofail = sorted(k for k, v in merged.items() if "no-failing-input-found" in v.get("line", ""))
     print(f"{len(merged)} results; not detected: {missed}; detected without a failing input: {nofail}")
@@ -37,4 +44,7 @@ if __name__ == "__main__":
     j = 8
     if "--jobs" in sys.argv:
         j = int(sys.argv[sys.argv.index("--jobs") + 1])
-    main(j)
+    only = None
+    if "--suffix" in sys.argv:
+        only = sys.argv[sys.argv.index("--suffix") + 1].split(",")
+    main(j, only)
